@@ -119,7 +119,7 @@ def rand_tree(rng, depth, width, top):
             kids.append([kn, rand_tree(rng, depth - 1, width, False)])
     if not any(drv.exposed(f) for f in fields) and not kids:
         fields.append(mkfield(rng, rng.choice([n for n in NAMES if n not in names]), top))
-    return {"fields": fields, "kids": kids}
+    return {"fields": fields, "kids": kids, "doc": "auto" if rng.random() < 0.2 else "explicit"}
 
 
 def name_classes(case):
@@ -128,7 +128,8 @@ def name_classes(case):
     def rec(tree):
         for _, sub in tree["kids"]:
             rec(sub)
-        key = json.dumps({"fields": tree["fields"], "kids": [[k, s["cls"]] for k, s in tree["kids"]]}, sort_keys=True)
+        key = json.dumps({"fields": tree["fields"], "kids": [[k, s["cls"]] for k, s in tree["kids"]],
+                          "doc": tree.get("doc", "explicit")}, sort_keys=True)
         if key not in memo:
             memo[key] = f"K{len(memo) + 1}"
         tree["cls"] = memo[key]
@@ -202,7 +203,7 @@ def gen(tier, seed):
     rng = random.Random(f"C16-{seed}")
     nseeds = 8 if tier == "quick" else 32
     cases = []
-    cdir = os.path.join(os.path.dirname(os.path.dirname(os.path.abspath(__file__))), "corpus", "C16")
+    cdir = os.path.join(os.path.dirname(os.path.dirname(os.path.dirname(os.path.abspath(__file__)))), "corpus", "C16")
     if os.path.isdir(cdir):
         for fn in sorted(os.listdir(cdir)):
             if fn.endswith(".json"):
@@ -226,7 +227,7 @@ def gen(tier, seed):
                         c = {"dv": dv, "gm": gm, "nm": nm, "mode": mode, "dests": deep(lay)}
                         cases.append(add_source(rng, name_classes(c), srcs[k % 4]))
                         k += 1
-    n = 600 if tier == "quick" else 6000
+    n = 600 if tier == "quick" else 4000
     for _ in range(n):
         big = tier == "thorough" and rng.random() < 0.25
         depth = rng.randint(0, 3 if big else 2)
@@ -280,22 +281,24 @@ def run_impl(cases):
     fin = os.path.join(SCRATCH, f"in_{tag}.json")
     json.dump(cases, open(fin, "w"))
     driver = os.path.join(os.path.dirname(os.path.dirname(os.path.abspath(__file__))), "c16_driver.py")
-    procs = []
-    for s in range(nseeds):
-        env = dict(os.environ)
-        env["PYTHONHASHSEED"] = str(s)
-        env["COLUMNS"] = "80"
-        env["C16_FULL"] = "1" if s < FULL_SEEDS else "0"
-        fout = os.path.join(SCRATCH, f"out_{tag}_{s}.json")
-        procs.append((s, fout, subprocess.Popen([sys.executable, driver, fin, fout, SCRATCH], env=env,
-                                                stdout=subprocess.PIPE, stderr=subprocess.STDOUT, text=True)))
     per_seed = []
-    for s, fout, p in procs:
-        out, _ = p.communicate(timeout=3000)
-        if p.returncode != 0:
-            raise RuntimeError(f"C16 driver under PYTHONHASHSEED={s} failed rc={p.returncode}:\n{out[-3000:]}")
-        per_seed.append(json.load(open(fout)))
-        os.remove(fout)
+    batch = 4  # interpreters of this shard running at once (check.py runs up to 16 shards in parallel)
+    for lo in range(0, nseeds, batch):
+        procs = []
+        for s in range(lo, min(nseeds, lo + batch)):
+            env = dict(os.environ)
+            env["PYTHONHASHSEED"] = str(s)
+            env["COLUMNS"] = "80"
+            env["C16_FULL"] = "1" if s < FULL_SEEDS else "0"
+            fout = os.path.join(SCRATCH, f"out_{tag}_{s}.json")
+            procs.append((s, fout, subprocess.Popen([sys.executable, driver, fin, fout, SCRATCH], env=env,
+                                                    stdout=subprocess.PIPE, stderr=subprocess.STDOUT, text=True)))
+        for s, fout, p in procs:
+            out, _ = p.communicate(timeout=3000)
+            if p.returncode != 0:
+                raise RuntimeError(f"C16 driver under PYTHONHASHSEED={s} failed rc={p.returncode}:\n{out[-3000:]}")
+            per_seed.append(json.load(open(fout)))
+            os.remove(fout)
     os.remove(fin)
     res = []
     for i, case in enumerate(cases):
@@ -309,7 +312,8 @@ def _entries_with_dest(sections, opt2dest):
     for title, _desc, entries in sections:
         if title in ("options", "optional arguments", "positional arguments"):
             continue
-        out.append([title, [[opt2dest.get(opts[0], "?") if opts else "?", opts, default, text] for opts, default, text in entries]])
+        out.append([title, [[opt2dest.get(opts[0], "?") if opts else "?", opts, default, text] for opts, default, text in entries],
+                    " ".join(_desc)])
     return out
 
 
@@ -337,7 +341,8 @@ def merge(case, seeds):
             texts.append(text)
         opt2dest = {}
         accepted = []
-        for _title, acts in o["registered"]:
+        docs = [doc for _title, _acts, doc in o["registered"]]
+        for _title, acts, _doc in o["registered"]:
             for dest, _aopts, keysof in acts:
                 accepted.append([dest, keysof])
                 for k in keysof:
@@ -355,7 +360,7 @@ def merge(case, seeds):
         v = {"full": o["full"], "end": ["cre"] if h[0] == "cre" else h[:2], "stream": stream, "groups": groups, "accepted": accepted, "action_dests": o["action_dests"],
              "hidden": [[d, all(k == "exit" and c == 2 for _, k, c in probes), probes, reg] for d, probes, reg in o["hidden"]],
              "format_help_same": o["format_help_same"], "api": api, "after": _view(case, o["after"]), "fresh": _view(case, o["fresh"]),
-             "oracle": o["oracle"],
+             "oracle": o["oracle"], "docs": docs,
              "fresh_format_help_sections": o["fresh_format_help_sections"]}
         key = json.dumps(v, sort_keys=True)
         if key in keys:
@@ -388,7 +393,7 @@ def _check_variant(case, v):
     wr = list(drv.walk(case))
     if [g[0] for g in v["groups"]] != [t["cls"] + " ['" + ".".join(p) + "']" for p, t in wr]:
         return f"groups {[g[0] for g in v['groups']]} are not one per destination in order"
-    for (path, tree), (_, entries) in zip(wr, v["groups"]):
+    for (path, tree), (_, entries, _d) in zip(wr, v["groups"]):
         fs = [f for f in tree["fields"] if drv.exposed(f)]
         if len(fs) != len(entries):
             return f"group of {'.'.join(path)}: {len(entries)} entries for {len(fs)} exposed fields"
@@ -411,6 +416,11 @@ def _check_variant(case, v):
     for d in hidden_dests:
         if d in v["action_dests"]:
             return f"hidden field {d} has an action"
+    for p, t in wr:
+        for f in t["fields"]:
+            if not drv.exposed(f) and any(f["name"] in g[2] for g in v["groups"]):
+                return f"hidden field {'.'.join(p + [f['name']])} is named in a group description: " \
+                       f"{[g[2] for g in v['groups'] if f['name'] in g[2]][0]!r}"
     if not v["full"]:
         return None
     for d, rejected, probes, reg in v["hidden"]:
@@ -464,10 +474,20 @@ def signature(case, obs, reason):
                               "other": "other"}[_seed_difference(obs)]
     if reason.startswith(("print_help()", "a parse after")):
         return "print_help-before-parse:" + ("config-file-defaults-ignored" if case["source"] == "config" else case["source"])
+    if reason.startswith("hidden field") and "group description" in reason:
+        return "hidden-field-in-group-description"
     if reason.startswith("coq-spec"):
         return "coq-spec-only"
-    import re
-    return "entries:" + re.sub(r"[^A-Za-z0-9_.-]", "", "-".join(reason.split(" ")[:3]))[:40]
+    kinds = [("--help ended with", "help-does-not-exit-0"), ("--help did not print", "help-not-on-stdout-only"),
+             ("groups ", "groups-not-one-per-destination"), ("group of", "entry-count-differs-from-exposed-fields"),
+             ("is not the entry of", "entry-order"), ("but the parser accepts", "option-strings-differ-from-accepted"),
+             ("shows default", "default-shown-is-not-effective-default"), ("shows help", "help-text-differs"),
+             ("has an action", "hidden-field-has-action"), ("is parseable", "hidden-field-parseable"),
+             ("format_help()", "format_help-differs-from-help")]
+    for pat, k in kinds:
+        if pat in reason:
+            return "entries:" + k
+    return "entries:other"
 
 
 def _has_tie(case, obs):
@@ -486,7 +506,7 @@ def features(case, obs):
             "ndest": len(case["dests"]), "nexposed": min(len(fws), 10),
             "hidden": sum(1 for _, t in drv.walk(case) for f in t["fields"] if not drv.exposed(f)),
             "end": "-".join(str(x) for x in obs["variants"][0]["end"]), "ntexts": obs["ntexts"], "nvariants": len(obs["variants"]),
-            "tie": _has_tie(case, obs),
+            "tie": _has_tie(case, obs), "autodoc": sum(1 for _, t in drv.walk(case) if t.get("doc") == "auto"),
             "fresh_format_help_lists_fields": any(v["fresh_format_help_sections"] > 1 for v in obs["variants"])}
 
 
@@ -537,7 +557,7 @@ def _cmd_meta(f):
     return "None" if f["cmd"] else "(Some false)"
 
 
-def _forest(case, n):
+def _forest(case, n, docs):
     ws = []
     for path, tree in drv.walk(case):
         up = drv.user_prefix(case, path)
@@ -545,15 +565,15 @@ def _forest(case, n):
         for f in tree["fields"]:
             fs.append(f"(mkhf (mkfw {n.ss(path)} {n.s(f['name'])} {n.s(up)} {n.ss(f['aliases'])} false) {cbool(f['init'])} "
                       f"{_cmd_meta(f)} {n.s(f['help'])} {n.os(drv.value_text(f['default']))})")
-        ws.append(f"(mkhw {n.s(tree['cls'])} {n.ss(path)} {clist(fs)})")
+        ws.append(f"(mkhw {n.s(tree['cls'])} {n.ss(path)} {n.s(docs.get(tree['cls'], drv.DOC.format(tree['cls'])))} {clist(fs)})")
     return clist(ws)
 
 
 def _groups(gs, n):
     out = []
-    for title, entries in gs:
+    for title, entries, desc in gs:
         es = [n.t(f"(mkentry {n.s(d)} {n.ss(opts)} {n.os(df)} {n.s(text)})") for d, opts, df, text in entries]
-        out.append(n.t(f"(mkgroup {n.s(title)} {clist(es)})"))
+        out.append(n.t(f"(mkgroup {n.s(title)} {n.s(desc)} {clist(es)})"))
     return n.t(clist(out))
 
 
@@ -570,6 +590,17 @@ def _err(end):
         return '(Raise "NoExit")'
     t = outcome(end)
     return t[len("(Err "):-1]
+
+
+def _docs_of(case, obs):
+    """class name -> __doc__ as the implementation interpreter reports it (dataclasses writes it at class creation);
+    the explicit docstring of the generator when set-up never happened"""
+    out = {}
+    for v in obs["variants"]:
+        for (_p, t), doc in zip(drv.walk(case), v.get("docs", [])):
+            if doc is not None:
+                out.setdefault(t["cls"], doc)
+    return out
 
 
 def coq_variants(obs, nseeds=8):
@@ -602,7 +633,7 @@ def to_coq(case, obs):
         vs.append(f"(mkvar {cbool(v['full'])} {n.t(clist([n.ss(r) for r in v['oracle']]))} {_err(v['end'])} {stream} {_groups(v['groups'], n)} {acc} "
                   f"{n.ss(v['action_dests'])} {hid} {cbool(bool(v['format_help_same']))} {api} "
                   f"{n.t(_res(v['after'], view))} {n.t(_res(v['fresh'], view))})")
-    return n.wrap(f"mkcase (mkcfg {DV[case['dv']]} {GM[case['gm']]} {NM[case['nm']]}) {CR[case['mode']]} {_forest(case, n)} {pre} {cfgf} "
+    return n.wrap(f"mkcase (mkcfg {DV[case['dv']]} {GM[case['gm']]} {NM[case['nm']]}) {CR[case['mode']]} {_forest(case, n, _docs_of(case, obs))} {pre} {cfgf} "
                   f"{req} {clist(vs)} {cnat(obs['ntexts'])}")
 
 
@@ -627,21 +658,21 @@ def shrink(case):
 
     def trees(t):
         for j in range(len(t["fields"])):
-            t2 = {"fields": t["fields"][:j] + t["fields"][j + 1:], "kids": t["kids"]}
+            t2 = {"fields": t["fields"][:j] + t["fields"][j + 1:], "kids": t["kids"], "doc": t.get("doc", "explicit")}
             if any(drv.exposed(f) for f in t2["fields"]) or t2["kids"]:
                 yield t2
         for j in range(len(t["kids"])):
-            t2 = {"fields": t["fields"], "kids": t["kids"][:j] + t["kids"][j + 1:]}
+            t2 = {"fields": t["fields"], "kids": t["kids"][:j] + t["kids"][j + 1:], "doc": t.get("doc", "explicit")}
             if any(drv.exposed(f) for f in t2["fields"]) or t2["kids"]:
                 yield t2
             for sub in trees(t["kids"][j][1]):
-                yield {"fields": t["fields"], "kids": t["kids"][:j] + [[t["kids"][j][0], sub]] + t["kids"][j + 1:]}
+                yield {"fields": t["fields"], "kids": t["kids"][:j] + [[t["kids"][j][0], sub]] + t["kids"][j + 1:], "doc": t.get("doc", "explicit")}
         for j, f in enumerate(t["fields"]):
             for k in range(len(f["aliases"])):
                 f2 = dict(f, aliases=f["aliases"][:k] + f["aliases"][k + 1:])
-                yield {"fields": t["fields"][:j] + [f2] + t["fields"][j + 1:], "kids": t["kids"]}
+                yield {"fields": t["fields"][:j] + [f2] + t["fields"][j + 1:], "kids": t["kids"], "doc": t.get("doc", "explicit")}
             if f["help"]:
-                yield {"fields": t["fields"][:j] + [dict(f, help="")] + t["fields"][j + 1:], "kids": t["kids"]}
+                yield {"fields": t["fields"][:j] + [dict(f, help="")] + t["fields"][j + 1:], "kids": t["kids"], "doc": t.get("doc", "explicit")}
 
     for i, (d, t, p) in enumerate(ds):
         for t2 in trees(t):
